@@ -478,6 +478,8 @@ def data_layout_check(ctx, w, src, meta, il_data, target, stats):
             pass
     if rc != 0:
         stats['layout_probe_failed'] = stats.get('layout_probe_failed', 0) + 1
+        if any(src == h[0] for h in LAYOUT_HAND):
+            ctx.broken('correspondence', 'rule 9 probe for a hand-written layout shape does not build with gcc', txt(e)[:600])
         return []
     bad = []
     for l in o.decode().split('\n'):
@@ -669,7 +671,15 @@ LAYOUT_HAND = [
 ]
 
 
+# objects whose type is completed only after their first declaration (alignment must be that of the completed type)
+LAYOUT_HAND.append(
+    ('struct S; extern struct S b1; struct S { long a; char c; }; struct S b1 = { 1 };\nstruct T b2; struct T { double d; }; \n'
+     'union U; extern union U b3; union U { int i; long l; }; union U b3;\nstruct V; static struct V b4; struct V { long s; short t; }; struct V *b5 = &b4;\n',
+     {'globals': [('b1', 'struct { long a; char c; }', None), ('b2', 'struct { double d; }', None), ('b3', 'union { int i; long l; }', None), ('b4', 'struct { long s; short t; }', None)]}))
+
 HAND = [
+    '_Noreturn void ab(void); int f(int c){ return c ? 1 : (ab(), 2); }\nint g(int c){ return c ? (ab(), 1) : 2; }\nint h(int c) { return c && (ab(), 1); }\nint k(int c) { return c || (ab(), 0); }\n',
+    '_Noreturn void ab(void); int f(int c, int d){ return c ? d ? 1 : (ab(), 2) : (ab(), 3); }\nvoid g(int c) { c ? ab() : ab(); }\n',
     'int f(int y){ return 0; 0 || y; }\n',
     'int f(int y){ return 0; 1 && y; }\n',
     'int f(int y){ return 0; y ? 1 : 2; }\n',
